@@ -250,7 +250,7 @@ class Interp:
         # 1. establishment
         v0_, lem0 = split(view(lo))
         for var, want in v0_.items():
-            self.equiv(env.get(var, NONE), want, f"loop{ordinal}/init/{var}")
+            self.equiv(self._acc_get(env, var), want, f"loop{ordinal}/init/{var}")
         for k, l in enumerate(lem0): eng.oblige(f"loop{ordinal}/init/lemma{k}", l, kind="inv")
         ph = eng.phase(2, f"loop{ordinal}")
         if ph == 0:
@@ -260,12 +260,12 @@ class Interp:
             vi, lemi = split(view(i))
             for l in lemi: eng.assume(l)
             for var, val in vi.items():
-                env[var] = val
+                self._acc_set(env, var, val)
             self.assign(s.target, elem(i), env)
             self.exec_block(s.body, env)
             vn, lemn = split(view(i + 1))
             for var, want in vn.items():
-                self.equiv(env.get(var, NONE), want, f"loop{ordinal}/preserve/{var}")
+                self.equiv(self._acc_get(env, var), want, f"loop{ordinal}/preserve/{var}")
             for k, l in enumerate(lemn): eng.oblige(f"loop{ordinal}/preserve/lemma{k}", l, kind="inv")
             extra = getattr(view, "after_body", None)
             if extra: extra(ctx, i, env)
@@ -274,6 +274,17 @@ class Interp:
         vx, lemx = split(view(n_exit))
         for l in lemx: eng.assume(l)
         for var, val in vx.items():
+            self._acc_set(env, var, val)
+
+    def _acc_get(self, env, var):
+        if "." in var:
+            o, a = var.split(".", 1); return env[o].attrs.get(a, NONE)
+        return env.get(var, NONE)
+
+    def _acc_set(self, env, var, val):
+        if "." in var:
+            o, a = var.split(".", 1); env[o].attrs[a] = val
+        else:
             env[var] = val
 
     def st_While(self, s, env):
@@ -521,7 +532,8 @@ class Interp:
     def model_eq(self, a, b):
         if a is b: return True
         if isinstance(a, ModelObj) and isinstance(b, ModelObj):
-            if a.family is not None and a.family == b.family and a.index is not None and b.index is not None:
+            if a.family is not None and a.family == b.family and a.index is not None and b.index is not None \
+                    and not isinstance(a.index, tuple) and not isinstance(b.index, tuple):
                 return a.index == b.index        # duplicate-free symbolic lists: same element iff same index
             if self.world is not None:
                 r = self.world.model_eq(self, a, b)
@@ -583,7 +595,10 @@ class Interp:
         if isinstance(o, ExplU): return self.getattr(self.resolve(o), name)
         if isinstance(o, ModelObj): return self.model_getattr(o, name)
         if isinstance(o, Qty):
-            if name in ("magnitude", "m"): return PyNum(o.mag, sign_term=o.phys)
+            if name in ("magnitude", "m"):
+                im = getattr(o, "int_mag", None)
+                if im is not None: return PyNum(im, sign_term=o.phys)
+                return PyNum(o.mag, sign_term=o.phys)
             if name in ("units", "u"): return o.unit
             if name == "dimensionality": return o.unit.dim
             return BoundMethod(o, name)
@@ -655,6 +670,8 @@ class Interp:
             if o.kind == "empty": return PyNum(z3.IntVal(0))
             if o.kind == "eq":
                 self.note_read(o)
+                im = getattr(o.value, "int_mag", None)
+                if im is not None: return PyNum(im, sign_term=o.value.phys)
                 return PyNum(o.value.mag, sign_term=o.value.phys)
             raise SymRaise("AttributeError", "magnitude")
         if name == "unit" and o.kind == "ehq": return o.value.unit
@@ -808,7 +825,9 @@ class Interp:
                 if self.eng.decide(b.phys == 0): raise SymRaise("ZeroDivisionError", "Quantity / 0")
                 return Qty(a.phys / b.phys, a.unit / b.unit)
         if isinstance(a, PyNum) and isinstance(b, Unit) and t == "Mult":
-            return Qty(a.r * b.f, b)
+            q = Qty(a.r * b.f, b)
+            if a.is_int: q.int_mag = a.z       # python int magnitude stays an int
+            return q
         if isinstance(a, Unit) and isinstance(b, Unit):
             if t == "Mult": return a * b
             if t == "Div": return a / b
